@@ -133,20 +133,23 @@ int TextFormatter::apr(File& f, const char *fmt, ...)
     case 'd':
       i = va_arg(ap, int);
 have_i:
-      if (i < 0) {
-        putc('-',fd);
-        i = -i;
+      {
+        /* magnitude in unsigned arithmetic: -INT_MIN does not fit an int */
+        unsigned int ui = i < 0 ? 0u - (unsigned int)i : (unsigned int)i;
+        unsigned int uj;
+        if (i < 0)
+          putc('-',fd);
+        s = buf;
+        do {
+          uj = ui / 10;
+          *s++ = (char)(ui - 10*uj + '0');
+        }
+        while((ui = uj));
+        do {
+          i = *--s;
+          putc(i,fd);
+        }	while (s > buf);
       }
-      s = buf;
-      do {
-        j = i / 10;
-        *s++ = i - 10*j + '0';
-      }
-      while((i = j));
-      do {
-        i = *--s;
-        putc(i,fd);
-      }	while (s > buf);
       continue;
     case '.':
       while (*fmt++ != 'g');
